@@ -13,6 +13,7 @@ import (
 	"strings"
 	"sync"
 	"sync/atomic"
+	"time"
 
 	"github.com/Breeze0806/gobinlog"
 	"github.com/Breeze0806/mysql"
@@ -278,7 +279,7 @@ func probeGoroutines() []libGoroutine {
 			bubble = m[1]
 		}
 	}
-	for _, g := range gs {
+	for gi, g := range gs {
 		lines := strings.Split(g, "\n")
 		if len(lines) < 2 {
 			continue
@@ -319,6 +320,21 @@ func probeGoroutines() []libGoroutine {
 			}
 		}
 		if top == "" {
+			// no library frame: still a leak if it lives in this bubble, is not the
+			// probing goroutine itself and is not a harness goroutine (e.g. the
+			// propagation goroutine context.WithCancel starts for a foreign parent)
+			if bubble == "" || gi == 0 || strings.Contains(g, "verifsim.") || strings.Contains(g, "testing/synctest.") ||
+				strings.Contains(g, "internal/synctest.") || strings.Contains(g, "testing.(*T).Run") || strings.Contains(g, "testing.tRunner") {
+				continue
+			}
+			first := ""
+			if len(lines) > 1 {
+				first = strings.TrimSpace(lines[1])
+				if m := frameRe.FindStringSubmatch(first); m != nil {
+					first = m[1]
+				}
+			}
+			out = append(out, libGoroutine{Top: first, Where: "", Role: "other", State: state})
 			continue
 		}
 		lg := libGoroutine{Top: top, Where: where, State: state}
@@ -333,4 +349,32 @@ func probeGoroutines() []libGoroutine {
 		out = append(out, lg)
 	}
 	return out
+}
+
+// foreignCtx is a context.Context implementation the context package does not
+// know (a merged / framework context): deriving a cancellable context from it
+// makes the standard library start a propagation goroutine.
+type foreignCtx struct {
+	mu   sync.Mutex
+	done chan struct{}
+	err  error
+}
+
+func newForeignCtx() *foreignCtx { return &foreignCtx{done: make(chan struct{})} }
+
+func (c *foreignCtx) Deadline() (time.Time, bool)       { return time.Time{}, false }
+func (c *foreignCtx) Done() <-chan struct{}             { return c.done }
+func (c *foreignCtx) Value(key interface{}) interface{} { return nil }
+func (c *foreignCtx) Err() error {
+	c.mu.Lock()
+	defer c.mu.Unlock()
+	return c.err
+}
+func (c *foreignCtx) cancel() {
+	c.mu.Lock()
+	defer c.mu.Unlock()
+	if c.err == nil {
+		c.err = context.Canceled
+		close(c.done)
+	}
 }
